@@ -432,6 +432,13 @@ func c12one(x *X, reg *pubRegime, loc *time.Location, cs c12case, step int, stal
 		doc["issue_date"] = D
 		combo["country"] = strings.ToUpper(reg.Country)
 	}
+	if stale && strings.HasSuffix(doc["$schema"].(string), "/bill/invoice") {
+		// other dates a document carries are not the tax date: a preceding document issued long
+		// before, the period the order covers, a payment due long after
+		doc["preceding"] = []any{map[string]any{"series": "OLD", "code": "0001", "issue_date": dateAdd(D, -420)}}
+		doc["ordering"] = map[string]any{"period": map[string]any{"start": dateAdd(D, -500), "end": dateAdd(D, -470)}}
+		doc["payment"] = map[string]any{"terms": map[string]any{"key": "due-date", "due_dates": []any{map[string]any{"date": dateAdd(D, 430), "percent": "100%"}}}}
+	}
 	db, _ := json.Marshal(doc)
 	x.Entropy(op.ID)
 	var env *gobl.Envelope
@@ -449,7 +456,7 @@ func c12one(x *X, reg *pubRegime, loc *time.Location, cs c12case, step int, stal
 	}
 	caseID := fmt.Sprintf("%s|%s|%s|%v|%s|%s", reg.file, op.S, op.S2, op.L, D, mode)
 	if stale {
-		mode += ", combo carrying percent 99.9% and surcharge 9.9% from before"
+		mode += ", combo carrying percent 99.9% and surcharge 9.9% from before, document carrying a preceding reference, an ordering period and a due date in other periods"
 		caseID += "|stale"
 	}
 	x.Case(caseID)
